@@ -176,6 +176,17 @@ func c08Contexts() []c08Ctx {
 		{"if-body", one(func(e *rt.Node) *rt.Node { return rt.If(Id("c"), rt.Block(rt.Call("p", I(1)), e)) })},
 		{"elif-body", one(func(e *rt.Node) *rt.Node { return rt.If(Id("c"), rt.Block(), Id("d"), rt.Block(e)) })},
 		{"else-body", one(func(e *rt.Node) *rt.Node { return rt.If(Id("c"), rt.Block(), rt.Block(e, rt.Call("p", I(1)))) })},
+		{"if-body-before-elif", one(func(e *rt.Node) *rt.Node { return rt.If(Id("c"), rt.Block(e), Id("d"), rt.Block(rt.Call("p", I(1))), rt.Block()) })},
+		{"elif-body-before-elif", one(func(e *rt.Node) *rt.Node {
+			return rt.If(Id("c"), rt.Block(), Id("d"), rt.Block(rt.Call("p", I(1)), e), rt.Bin("<", Id("x"), I(1)), rt.Block(), rt.Block(rt.Call("p", I(2))))
+		})},
+		{"nested-12-deep", one(func(e *rt.Node) *rt.Node {
+			n := e
+			for i := 0; i < 6; i++ {
+				n = rt.Call("p", I(int64(i)), rt.List(n))
+			}
+			return rt.Assign("=", Id("x"), n)
+		})},
 		{"for-init-assign", one(func(e *rt.Node) *rt.Node { return rt.For(rt.Assign("=", Id("i"), e), nil, nil, brk()) })},
 		{"for-init-expr", one(func(e *rt.Node) *rt.Node { return rt.For(e, nil, nil, brk()) })},
 		{"for-cond", one(func(e *rt.Node) *rt.Node { return rt.For(nil, e, nil, brk()) })},
